@@ -45,6 +45,14 @@ let run_hm (ops : string list) : string =
                zs c ^ " " ^ zs v end
     | 'c' -> let (c, v) = Gen_HashMultiMap.coq_Clear false !cnt !ver z0 false in cnt := c; ver := v; keys := []; zs c ^ " " ^ zs v
     | 'I' -> if klen (a 0) < 0 || a 1 >= klen (a 0) then "skip" else (saved := Some !ver; "it")
+    | 'C' -> (match !saved with
+              | None -> "skip"
+              | Some v -> let ae = (args = [] || a 0 <> 0) in
+                  (match Gen_VersionCheck.coq_Check_cont (fun _ -> !ver) (z_of_int 4096) v (z_of_int 4096) ae with
+                   | GenPrelude.Ok _ -> "ok" | GenPrelude.Exn -> "throw" | _ -> "stuck"))
+    | 'E' -> let ae = (args = [] || a 0 <> 0) in
+             (match Gen_VersionCheck.coq_Check_cont (fun _ -> !ver) z0 z0 (z_of_int 4096) ae with
+              | GenPrelude.Ok _ -> "ok" | GenPrelude.Exn -> "throw" | _ -> "stuck")
     | 'U' -> (match !saved with
               | None -> "skip"
               | Some v -> (* the generated VersionKeeper::Check (exception mode): the counter lives at some non-null address *)
